@@ -33,7 +33,14 @@ Checks strengthened because a seeded change was first missed: C01/C02 gained the
 and header-order streams (M02, M10); C03 gained the header-order shapes (M10); C14's oracle now
 threads the nearest spanned ancestor through dotted tables (M11); C16 gained the wide-table stream
 with sort ties, an exact array print oracle and stability theorems (M09); C18's battery gained
-toml::Table insert/remove histories per configuration (M14).
+toml::Table insert/remove histories per configuration (M14); C07 gained the toml::Value / Holder
+typed families judged on the values themselves, because the recorded serde calls of a value whose
+own `Serialize` impl is the broken code are already lossy (M19, M24); C08 keeps its in-memory oracle
+running after a known class was seen on a sequence (before, the rest of the sequence went
+unchecked) and has containers of four and more elements among its hand-written layouts (M20, first
+caught by the correspondence only); C16 gained the rest of the Entry API (M21).
+Second-round changes (M21-M25) were written by fresh sub-agents that were told which idea the first
+round had already used for that property.
 """
 p = os.path.join(ROOT, "DESIGN.md")
 s = open(p).read()
